@@ -640,7 +640,8 @@ def case_obscape(ws, rng, tmp, res, tier):
     lat, lon = rng.uniform(-60, 60), rng.uniform(-180, 180)
     for k in range(nfiles):
         E, kd = gen_spec2d(rng, nf, nd)
-        name = "%03d_wavebuoy_spec2D.csv" % k
+        # the logger names its files yyyymmdd_hhmmss_…: the directory reader selects files by that stamp
+        name = times[perm[k]].strftime("%Y%m%d_%H%M%S") + "_wavebuoy_%03d_spec2D.csv" % k
         said_all.append(F.enc_obscape(tmp / name, dict(time=times[perm[k]], lat=lat, lon=lon, values=E.tolist()), freqs, dd,
                                       extra_comment=rng.random() < 0.7))
         paths.append(tmp / name)
@@ -651,6 +652,23 @@ def case_obscape(ws, rng, tmp, res, tier):
     arg = str(tmp / "*_spec2D.csv") if rng.random() < 0.5 else [str(p) for p in paths]
     ds = ws.read_obscape(arg)
     fails = res["fails"]
+    # the directory entry point: all files, and the files whose stamp lies in [start, end] (both ends included)
+    from wavespectra.input.obscape import read_obscape_dir
+
+    try:
+        dall = read_obscape_dir(str(tmp))
+        if not (np.array_equal(dall.time.values, ds.time.values) and np.array_equal(dall.efth.values, ds.efth.values)):
+            fails.add("read_obscape_dir(directory) differs from read_obscape on the same files")
+        ts = sorted(times)
+        lo, hi = ts[rng.randrange(len(ts))], ts[rng.randrange(len(ts))]
+        if lo > hi:
+            lo, hi = hi, lo
+        want = sorted(F.secs(t) for t in ts if lo <= t <= hi)
+        dsel = read_obscape_dir(str(tmp), start_date=lo, end_date=hi)
+        if tsec(dsel.time.values) != want:
+            fails.add(f"read_obscape_dir(start_date, end_date): got times {tsec(dsel.time.values)}, files stamped inside the range: {want}")
+    except Exception as e:
+        fails.add(f"read_obscape_dir raised {type(e).__name__}: {e}")
     cmp_arr(fails, "freq", ds.freq.values, said_all[0]["freqs"], rel=1e-12)
     cmp_arr(fails, "dir", ds.dir.values, said_all[0]["dirs"], rel=1e-12)
     got = np.asarray(ds.efth.values, dtype=float)
